@@ -541,7 +541,7 @@ def gen_root(rng, named, n_rules=None, hook_p=0.5, ignore=None, features=None, c
     return spec, g
 
 
-def gen_child(rng, parent_gen, hook_p=0.4, ignore=None, allow_super=True):
+def gen_child(rng, parent_gen, hook_p=0.4, ignore=None, allow_super=True, force=()):
     """A module spec extending the module described by parent_gen.table.
     Returns (spec, gen) where gen.table is the effective table of the child."""
     g = Gen(rng, parent_gen.features)
@@ -554,6 +554,9 @@ def gen_child(rng, parent_gen, hook_p=0.4, ignore=None, allow_super=True):
     start_ok = 'start' in g.table
     k = min(len(cands), rng.choice([0, 1, 1, 2, 3]))
     overridden = rng.sample(cands, k) if k else []
+    for n in force:
+        if n in g.table and n not in overridden:
+            overridden.append(n)
     if start_ok and rng.random() < 0.2:
         overridden.append('start')
     n_new = rng.choice([0, 1, 1, 2])
@@ -616,6 +619,84 @@ def gen_child(rng, parent_gen, hook_p=0.4, ignore=None, allow_super=True):
         g.table[nm] = {'rank': 1e9, 'nullable': False, 'kind': 'ignore', 'pattern': free[0]}
     spec = {'named': True, 'extends': True, 'items': items}
     return spec, g
+
+
+def kind_matrix_root(rng, ignore=None):
+    """A root grammar in which ONE rule X is referred to from every kind of expression, each
+    reachable through its own tag: `start = List(("1" >> K1) | ("2" >> K2) | ...)`.  A derived
+    grammar that overrides X must see its definition in every one of these contexts (C13: late
+    binding must not depend on the kind of the referring expression)."""
+    X = ['ref', 'X']
+    ctxs = [
+        X,
+        ['seq', X, ['lit', '!']],
+        ['alt', ['lit', '?'], X],
+        ['opt', X],
+        ['star', X],
+        ['plus', X],
+        ['rep', X, 1, 2],
+        ['sep', X, ['lit', ',']],
+        ['sept', X, ['lit', ',']],
+        ['seq', ['lit', 'i'], ['star', ['seq', X, ['lit', 'i']]]],
+        ['right', ['lit', '<'], X],
+        ['left', X, ['lit', '>']],
+        ['seq', ['expect', X], X],
+        ['seq', ['expectnot', X], ['re', '[a-c]']],
+        ['apply', X, 'lambda v: [v]'],
+        ['where', X, 'lambda v: True'],
+        ['longest', X, ['lit', 'n']],
+        ['longest', ['lit', 'n'], ['seq', X, ['lit', '!']]],
+        ['right', ['skip', X], ['lit', 'e']],
+        ['let', 'v', X, ['seq', ['py', 'v'], X]],
+        ['call', 'Tw', X],
+        ['call', 'Pt', X],
+        ['optable', X, [['left', [['lit', '+']]], ['prefix', [['lit', '!']]]]],
+        ['optable', ['ref', 'O'], [['left', [X]]]],
+        ['optable', ['ref', 'O'], [['mixfix', [['left', ['right', ['lit', '('], X], ['lit', ')']]]], ['left', [['lit', '+']]]]],
+        ['sep', ['ref', 'O'], X],
+        ['seq', ['opt', ['lit', 'q']], ['alt', ['seq', X, ['lit', '!']], ['seq', X, ['lit', '?']], X]],
+    ]
+    g = Gen(rng, features=['classes', 'sep', 'lookahead', 'apply', 'where', 'longest', 'template', 'optable', 'let', 'skip', 'rep'])
+    g.max_rep_lo = 1
+    g.lits = ['a', 'b', 'c', '!', '?', ',']
+    g.res = ['[ab]+']
+    tags = '0123456789ABCDEFGHIJKLMNOPQRSTUVWXYZ'
+    items = [{'k': 'rule', 'name': 'Tw', 'params': ['x'], 'expr': ['left', ['right', ['lit', '('], ['ref', 'x']], ['lit', ')']]},
+             {'k': 'rule', 'name': 'Pt', 'params': ['x'], 'expr': ['left', ['ref', 'x'], ['opt', ['lit', '?']]]}]
+    g.table['Tw'] = {'rank': -1.0, 'nullable': False, 'kind': 'template'}
+    g.table['Pt'] = {'rank': -1.0, 'nullable': True, 'kind': 'template', 'arg_leftmost': True}
+    alts = []
+    n = len(ctxs)
+    g.table['X'] = {'rank': float(n + 5), 'nullable': False, 'kind': 'rule'}
+    g.table['O'] = {'rank': float(n + 4), 'nullable': False, 'kind': 'rule'}
+    rules = []
+    for i, c in enumerate(ctxs):
+        name = 'K%d' % i
+        alts.append(['right', ['lit', tags[i] + ':'], ['ref', name]])
+        if i % 5 == 4:
+            rules.append({'k': 'class', 'name': name, 'fields': [{'name': 'f', 'expr': c, 'mod': ''}]})
+            g.table[name] = {'rank': float(i + 1), 'nullable': nullable(c, g._env()), 'kind': 'class'}
+        else:
+            rules.append({'k': 'rule', 'name': name, 'expr': c})
+            g.table[name] = {'rank': float(i + 1), 'nullable': nullable(c, g._env()), 'kind': 'rule'}
+    items.append({'k': 'rule', 'name': 'start', 'expr': ['star', ['left', ['alt'] + alts, ['lit', ';']]]})
+    g.table['start'] = {'rank': 0.0, 'nullable': True, 'kind': 'rule'}
+    items += rules
+    # (an operator table over a bare literal operand keeps a dangling operator: C02's business)
+    items.append({'k': 'rule', 'name': 'O', 'expr': ['lit', 'o']})
+    if rng.random() < 0.5:
+        items.append({'k': 'class', 'name': 'X', 'fields': [{'name': 'v', 'expr': ['lit', 'x'], 'mod': ''}]})
+        g.table['X']['kind'] = 'class'
+    else:
+        items.append({'k': 'rule', 'name': 'X', 'expr': ['lit', 'x']})
+    if ignore is None:
+        ignore = rng.choice([None, None, 'anon', 'named'])
+    if ignore == 'anon':
+        items.append({'k': 'ignore', 'expr': ['re', ' +']})
+    elif ignore == 'named':
+        items.append({'k': 'rule', 'name': 'Sp', 'ignore': True, 'expr': ['re', ' +']})
+        g.table['Sp'] = {'rank': 1e9, 'nullable': False, 'kind': 'ignore'}
+    return {'named': True, 'extends': None, 'items': items}, g
 
 
 def gen_variant(rng, spec_, gen, parent_gen=None, toggle_ignore=True):
